@@ -798,7 +798,18 @@ def expand_expr(repo: Repo, fi: FuncInfo, e: ast.AST, depth: int = 4, locals_too
 
         return T().visit(x)
 
-    return ast.fix_missing_locations(rec(e, depth))
+    out = rec(e, depth)
+
+    class AllAny(ast.NodeTransformer):
+        """all((a, b, c)) / any([a, b]) over a literal display is the conjunction / disjunction of its elements"""
+
+        def visit_Call(self, node):
+            node = self.generic_visit(node)
+            if isinstance(node.func, ast.Name) and node.func.id in ("all", "any") and len(node.args) == 1 and not node.keywords and isinstance(node.args[0], (ast.Tuple, ast.List)) and node.args[0].elts and not any(isinstance(x, ast.Starred) for x in node.args[0].elts):
+                return ast.copy_location(ast.BoolOp(op=ast.And() if node.func.id == "all" else ast.Or(), values=list(node.args[0].elts)), node)
+            return node
+
+    return ast.fix_missing_locations(AllAny().visit(out))
 
 
 # ---------------------------------------------------------------------------
